@@ -7,6 +7,7 @@ package main
 // the same result lines.
 
 import (
+	"encoding/hex"
 	"fmt"
 	"math/rand"
 	"strings"
@@ -303,6 +304,10 @@ func (g *gen) onePure() {
 		body := g.fragBody()
 		g.out.emit("parsefrag "+hx(body), otr3.VerifParseFragment(body))
 	case 23:
+		if g.r.Intn(2) == 0 {
+			g.fragArrivals()
+			break
+		}
 		// reassembly switch from an arbitrary context
 		idx := uint16(g.r.Intn(5))
 		ln := uint16(g.r.Intn(5))
@@ -512,5 +517,110 @@ func (g *gen) roundTripPlain(text []byte, nums []uint64, vs [][]byte, ser []byte
 	olog.ok("C17")
 	if got := otr3.VerifParse("plain", ser); got != want {
 		olog.viol("C17", "plaintext-round-trip-differs", fmt.Sprintf("built %s, serialised to %x, parsed back as %s", want, ser, got))
+	}
+}
+
+// A sequence of fragment arrivals through the index/total switch of receiveFragment, each relative
+// to the context the previous one left behind (the context is emptied after a completion, as Receive
+// does): mostly the next piece of the stream, and often a piece with the next index but another
+// total (smaller - down to the one that completes at once - or larger), a duplicate, a skipped
+// index, a restart, an illegal numbering. Oracle (C14): with k of n collected (k < n), the only
+// arrivals that complete a message are n of n when k+1 = n, and a whole message in one piece (1 of 1).
+func (g *gen) fragArrivals() {
+	var frag []byte
+	idx, ln := 0, 0
+	var history []string
+	total := func() int {
+		switch g.r.Intn(8) {
+		case 0:
+			return 65535 - g.r.Intn(3)
+		case 1:
+			return 300 + g.r.Intn(65000)
+		case 2:
+			return 1
+		default:
+			return 2 + g.r.Intn(6)
+		}
+	}
+	piece := func() []byte {
+		b := make([]byte, 1+g.r.Intn(6))
+		for i := range b {
+			b[i] = "ABCDEFGHIJKLMNOPQRSTUVWXYZabcdefghijklmnopqrstuvwxyz0123456789+/ ?|"[g.r.Intn(67)]
+		}
+		return b
+	}
+	steps := 3 + g.r.Intn(8)
+	for s := 0; s < steps; s++ {
+		ix, l := 1, total()
+		kind := "first"
+		if idx > 0 {
+			if ln-idx > 3 && g.r.Intn(3) != 0 {
+				// a long stream: as if all pieces but the last few had arrived, so that its end is reached
+				idx = ln - 1 - g.r.Intn(3)
+				frag = append(frag, piece()...)
+				history = append(history, fmt.Sprintf("(…%d/%d)", idx, ln))
+			}
+			ix, l, kind = idx+1, ln, "next"
+			switch g.r.Intn(12) {
+			case 4, 5: // next index, smaller total (when there is one): the smallest completes at once
+				if ln > idx+1 {
+					l, kind = idx+1, "next-smaller-total-completing"
+					if g.r.Intn(2) == 0 {
+						l, kind = idx+1+g.r.Intn(ln-idx-1), "next-smaller-total"
+					}
+				}
+			case 6, 7: // next index, larger total
+				if ln < 65535 {
+					l, kind = ln+1+g.r.Intn(3), "next-larger-total"
+					if l > 65535 {
+						l = 65535
+					}
+				}
+			case 8:
+				ix, kind = idx, "duplicate"
+			case 9:
+				if idx+2 <= ln {
+					ix, kind = idx+2, "skipped"
+				}
+			case 10:
+				ix, l, kind = 1, total(), "restart"
+			case 11:
+				ix, l = []int{0, ln + 1, idx + 1}[g.r.Intn(3)], []int{ln, ln, 0}[g.r.Intn(3)]
+				kind = "illegal"
+				if ix != 0 && l != 0 && ix <= l {
+					ix, l = 0, ln
+				}
+			}
+		} else if g.r.Intn(6) == 0 { // no stream, and not a first piece
+			l = 2 + total()%65534
+			ix, kind = 2+g.r.Intn(l-1), "orphan"
+		}
+		d := piece()
+		body := []byte(fmt.Sprintf("%05d,%05d,%s,", ix, l, d))
+		res := otr3.VerifFragAccept(frag, uint16(idx), uint16(ln), body)
+		g.out.emit(fmt.Sprintf("fragaccept %s %d %d %s", hx(frag), idx, ln, hx(body)), res)
+		g.dist["fragaccept:"+kind]++
+		history = append(history, fmt.Sprintf("%d/%d", ix, l))
+		var e, fh, fin string
+		var ni, nl int
+		if n, _ := fmt.Sscanf(res, "%s %s %d %d %s", &e, &fh, &ni, &nl, &fin); n != 5 {
+			return
+		}
+		finished := fin == "true"
+		if olog != nil {
+			olog.ok("C14")
+			if finished && !(ix == idx+1 && l == ln && ix == l) && !(ix == 1 && l == 1) {
+				olog.viol("C14", "glued-from-two-streams", fmt.Sprintf("receiveFragment (OTRv2 header): with %d of %d pieces collected (%q), the arrival %q (%s) completes a message %s; arrivals so far: %v", idx, ln, frag, body, kind, fh, history))
+			}
+		}
+		if finished || fh == "-" {
+			frag = nil
+		} else {
+			frag, _ = hex.DecodeString(fh)
+		}
+		idx, ln = ni, nl
+		if finished {
+			idx, ln = 0, 0
+		}
 	}
 }
